@@ -3,6 +3,8 @@
 * `Counter.inc`:                 `if amount < 0: raise ValueError`        -> counterIncGuard   (operator, operand order, constant)
 * `Histogram.observe`:           `if amount <= bound:` inside the loop     -> histObserveTest   (operator, operand order)
 * `Histogram._child_samples`:    `if self._upper_bounds[0] >= 0:` (_sum)   -> histSumTest       (operator, operand order, constant, index)
+* `Counter.reset`, `Info.info`:  is `self._raise_if_not_observable()` the first statement?  -> counterResetChecksObservable,
+                                 infoChecksObservable   (finding F7: today it is not, and a labelled parent raises AttributeError)
 * `MetricWrapperBase.labels`:    the three guards before `if labelkwargs:` -> labelsCheckOrder  (in source order)
                                  `for l in self._labelnames` in the keyword branch -> kwargsValueOrder (declaration | call)
                                  `sorted(labelkwargs) != sorted(self._labelnames)`, `len(labelvalues) != len(self._labelnames)`
@@ -37,7 +39,7 @@ deriving Repr, DecidableEq
 '''
 
 DEFAULTS = dict(counter=('ne', True, 0), observe=('ne', True), hsum=('ne', True, 0, 0), checks=[], kworder='call',
-                kwnames='eq', poscount='eq')
+                kwnames='eq', poscount='eq', reset_checks=False, info_checks=False)
 
 
 def _emit(fails, v):
@@ -64,6 +66,9 @@ def _emit(fails, v):
     out += '/-- `labels()`: operator of `sorted(labelkwargs) <op> sorted(self._labelnames)` and of `len(labelvalues) <op> len(self._labelnames)` -/\n'
     out += 'def kwNamesCmp : CmpOp := .%s\n' % v['kwnames']
     out += 'def posCountCmp : CmpOp := .%s\n' % v['poscount']
+    out += '/-- does `Counter.reset` / `Info.info` start with `self._raise_if_not_observable()`? -/\n'
+    out += 'def counterResetChecksObservable : Bool := %s\n' % b(v['reset_checks'])
+    out += 'def infoChecksObservable : Bool := %s\n' % b(v['info_checks'])
     return out + footer(TARGET)
 
 
@@ -163,6 +168,27 @@ def site_hsum(tree, v):
     v['hsum'] = (op, left, k, idx[0])
 
 
+def _first_is_observable_check(f):
+    body = [n for n in f.body if not (isinstance(n, ast.Expr) and isinstance(n.value, ast.Constant))]
+    return bool(body) and ast.unparse(body[0]) == 'self._raise_if_not_observable()'
+
+
+def site_reset(tree, v):
+    f = find_func(tree, 'reset', cls='Counter')
+    v['reset_checks'] = _first_is_observable_check(f)
+    if 'self._value.set(0)' not in [ast.unparse(n) for n in f.body]:
+        raise Fail('`self._value.set(0)` not found')
+
+
+def site_info(tree, v):
+    f = find_func(tree, 'info', cls='Info')
+    v['info_checks'] = _first_is_observable_check(f)
+    body = [ast.unparse(n) for n in f.body if not (isinstance(n, ast.Expr) and isinstance(n.value, ast.Constant))]
+    rest = body[1:] if v['info_checks'] else body
+    if not rest or not rest[0].startswith('if self._labelname_set.intersection(val.keys()):'):
+        raise Fail('the overlap test `self._labelname_set.intersection(val.keys())` is not the first test')
+
+
 def site_labels(tree, v):
     f = find_func(tree, 'labels', cls='MetricWrapperBase')
     body = [n for n in f.body if not (isinstance(n, ast.Expr) and isinstance(n.value, ast.Constant))]
@@ -228,7 +254,8 @@ def generate(repo):
     except (OSError, SyntaxError) as e:
         return _emit([('parse', str(e))], v)
     for name, fn in (('Counter.inc', site_counter), ('Histogram.observe', site_observe),
-                     ('Histogram._child_samples', site_hsum), ('MetricWrapperBase.labels', site_labels)):
+                     ('Histogram._child_samples', site_hsum), ('Counter.reset', site_reset), ('Info.info', site_info),
+                     ('MetricWrapperBase.labels', site_labels)):
         try:
             fn(tree, v)
         except Fail as e:
